@@ -1,0 +1,23 @@
+//go:build verif
+
+package aztec
+
+import "github.com/boombuler/barcode/utils"
+
+// Hooks for the verification harness in /verif (build tag `verif` only): they expose internal stages unchanged.
+
+func VerifHighlevelEncode(data []byte) *utils.BitList { return highlevelEncode(data) }
+
+func VerifStuffBits(bits *utils.BitList, wordSize int) *utils.BitList {
+	return stuffBits(bits, wordSize)
+}
+
+func VerifGenerateModeMessage(compact bool, layers, messageSizeInWords int) *utils.BitList {
+	return generateModeMessage(compact, layers, messageSizeInWords)
+}
+
+func VerifGenerateCheckWords(bits *utils.BitList, totalBits, wordSize int) *utils.BitList {
+	return generateCheckWords(bits, totalBits, wordSize)
+}
+
+func VerifTotalBitsInLayer(layers int, compact bool) int { return totalBitsInLayer(layers, compact) }
